@@ -1,4 +1,5 @@
 CONSTANTS
+  Alias = FALSE
   MaxLen = 4
   ExportLen = 4
 INIT Init
